@@ -300,6 +300,8 @@ def coq_eval_cases(pid, header, run_name, case_terms, expected, shard=300, tag="
             if j < len(mo):
                 outs[lo + i] = mo[j]
     for f in files:
+        if not errors and f.exists() and len(files) > 2:
+            f.unlink()          # keep the disk clean; small runs keep their case files for inspection
         for ext in (".vo", ".glob", ".vok", ".vos"):
             q = f.with_suffix(ext)
             if q.exists():
